@@ -17,7 +17,7 @@ R  every root index 1..p-1 of every prime length p = 23..1193 (the base lengths
    the numerology can ask for, passed explicitly as Nzc so that the sweep does
    not depend on the prime table): amplitude, autocorrelation and spectrum
    (FFT based here; the four roots of Z are also checked by direct sums).
-   Quick tier: every root for p <= 300, every 16th root (+ the four) above.
+   Quick tier: every root for p <= 200, every 16th root (+ the four) above.
 X  cyclic extension with explicit Nzc: sizes Nzc+{0,1,Nzc-1,Nzc,Nzc+1,Nzc+3,
    2Nzc,2Nzc+5} and get_extended_ZF on position-distinguishable arrays of
    lengths 1..6 x every size n..4n+1.
@@ -972,12 +972,12 @@ def eval_seq_history(chk, case):
 EST_EVENTS = 7          # 0..4 valid estimations, 5 / 6 invalid calls (wrong length, wrong dimensions)
 
 
-def bad_received(N, kind, ei):
+def bad_received(N, kind, ei, delta=1):
     skind, D, mult, cc, xd, variant = kind_info(kind)
-    if ei == 5:                                   # one element too many
+    if ei == 5:                                   # one element too many / too few
         if variant == "occ":
-            return np.ones((2, N + 1), dtype=complex) if xd else np.ones(2 * N + 1, dtype=complex)
-        return np.ones(N + 1, dtype=complex)
+            return np.ones((2, N + delta), dtype=complex) if xd else np.ones(2 * N + delta, dtype=complex)
+        return np.ones(N + delta, dtype=complex)
     if variant == "occ":                          # wrong cover-code dimension / odd flat length with two antennas
         return np.ones((3, N), dtype=complex) if xd else np.ones((2, 2 * N + 1), dtype=complex)
     return np.ones((2, 2, N), dtype=complex)      # three dimensions
@@ -1019,16 +1019,17 @@ def eval_est_history(chk, case, cache):
                 ref_snapshot = np.array(est_obj.ue_ref_seq, copy=True)
                 ue_snapshot = np.array(b0["ue"].seq_array(), copy=True)
                 ue_obj, xd_flag, occ_flag = b0["ue"], b0["xd"], b0["occ"]
-            bad = bad_received(N, kind, ei)
-            bad_copy = bad.copy()
-            if occ_flag:
-                fn = lambda: est_obj.estimate_channel_freq_domain(bad, 1, extra_dimension=xd_flag)
-            else:
-                fn = lambda: est_obj.estimate_channel_freq_domain(bad, 1)
-            must_raise(chk, ("error_path", "cazac_estimator", variant, "wrong_length" if ei == 5 else "wrong_dimensions"),
-                       dict(case, step=step), fn, [est_obj, ue_obj])
-            if not np.array_equal(bad, bad_copy):
-                chk.fail(("error_path", "cazac_estimator", variant, "input_mutated"), dict(case, step=step))
+            for delta in ((1, -1) if ei == 5 else (1,)):
+                bad = bad_received(N, kind, ei, delta)
+                bad_copy = bad.copy()
+                if occ_flag:
+                    fn = lambda: est_obj.estimate_channel_freq_domain(bad, 1, extra_dimension=xd_flag)
+                else:
+                    fn = lambda: est_obj.estimate_channel_freq_domain(bad, 1)
+                what = ("too_long" if delta > 0 else "too_short") if ei == 5 else "wrong_dimensions"
+                must_raise(chk, ("error_path", "cazac_estimator", variant, what), dict(case, step=step), fn, [est_obj, ue_obj])
+                if not np.array_equal(bad, bad_copy):
+                    chk.fail(("error_path", "cazac_estimator", variant, "input_mutated"), dict(case, step=step))
             chk.outcome("estimator_history_event", (ei, step))
             continue
         L, K, rx, interf = est_event(N, D, ei)
@@ -1108,6 +1109,8 @@ def est_unit(chk, unit, cache):
     Lmax = max(1, N // 8)
     rxs = ["1d", 1, 2, 3, 4] if chk.tier == "thorough" else (["1d", 1, 2] if N < 96 else ["1d", 2])
     isets = interferer_sets(D, N, occ)
+    if chk.tier != "thorough" and N >= 96:
+        isets = [t for i, t in enumerate(isets) if i != 3]      # quick: without the two-interferer set
     win = N // D if N % D == 0 else None
     for L in range(1, Lmax + 1):
         for ri, rx in enumerate(rxs):
@@ -1585,11 +1588,11 @@ def all_units(tier):
             for norm in (False, True):
                 if kind.startswith("array") and norm:
                     continue
-                if kind in EXTRA_KINDS and not thorough and N > 72:
+                if kind in EXTRA_KINDS and not thorough and N > 64:
                     continue
                 for shift in range(D):
                     if N <= 24:
-                        whichs = ("zero", "last") if not thorough else ("zero", "seed", "last")     # root index 0 is valid
+                        whichs = ("zero",) if not thorough else ("zero", "seed", "last")     # root index 0 is valid
                     elif N == 25 and not thorough:
                         whichs = ("seed", "one", "last")
                     elif not thorough or N > 192:
@@ -1615,13 +1618,15 @@ def all_units(tier):
             ls.append(("ls", "generic_real", shape, form, 0, S // 2))
     # H / contexts
     hx = []
-    for N in ([24, 36, 48] if not thorough else [12, 24, 25, 36, 48, 144]):
+    for N in ([24, 48] if not thorough else [12, 24, 25, 36, 48, 144]):
         for which in ("seed", "one"):
             hx.append(("hist_seq", N, est_root(N, which), 3 if not thorough else 4))
     for N in ([40, 48] if not thorough else [31, 36, 40, 48, 72]):
         for kind in EST_KINDS:
             for norm in (False, True):
                 if kind.startswith("array") and norm:
+                    continue
+                if not thorough and N % kind_info(kind)[1]:
                     continue
                 hx.append(("hist_est", N, kind, norm, est_root(N, "seed"), 3))
     for what in ("scale", "layout"):
@@ -1678,7 +1683,7 @@ def run_unit(chk, unit, tools, cache):
         p = unit[1]
         des = set(designated_roots(p))
         for u in range(1, p):
-            if chk.tier != "thorough" and p > 300 and u % 16 != 3 and u not in des:
+            if chk.tier != "thorough" and p > 200 and u % 16 != 3 and u not in des:
                 continue
             case = {"part": "R", "nzc": p, "root": u, "direct": u in des}
             with chk.guard(("zc_root",), case):
@@ -1746,7 +1751,9 @@ def self_check_determinism():
     outs = []
     for _ in range(2):
         c = Check(PID, LEVEL, ENGINE, RULE, child=True)
-        e = eval_est(c, case, SeqCache())
+        e = None
+        with c.guard(("cazac_estimator", "occ"), case):     # a crash here is the library's, reported by part E
+            e = eval_est(c, case, SeqCache())
         outs.append((None if e is None else e.tobytes(), sorted(c.violations)))
     if outs[0] != outs[1]:
         raise Broken("estimator execution is not deterministic")
@@ -1764,6 +1771,7 @@ def main(chk: Check):
                                "C_EST (kappa=2*pi*N*(1+#interferers))": C_EST, "C_LS (kappa=cond(s)^2)": C_LS,
                                "LS_COND_BOUND": LS_COND_BOUND}
     chk.extra["seed_chosen_root_example_nzc139"] = seed_root(139)
+    _watch_list()              # fix the list of watched module data before any library call
     self_check_determinism()
     part_prime(chk)
     units = all_units(chk.tier)
@@ -1776,10 +1784,11 @@ def main(chk: Check):
 
     run_shards(chk, worker)
     if chk.tier != "thorough":
-        chk.assume("quick tier: Z on sizes that are multiples of 12; E on lengths {25,31,36,40,48,50,64,72,96,144} with the "
-                   "seed-chosen root and receive forms 1-D, 1, 2 antennas (3 antennas in the layout contexts); X on a subset "
-                   "of base lengths; R every root for base lengths <= 300 and every 16th root above; L small-entry pilots "
-                   "with <= 6 entries; histories up to 3 events")
+        chk.assume("quick tier: Z on sizes that are multiples of 12; E on lengths {24,25,31,36,40,48,50,64,72,96,144} with the "
+                   "seed-chosen root (24: root 0; 25: also roots 1 and Nzc-1), receive forms 1-D, 1, 2 antennas (1-D and 2 for "
+                   "N >= 96; 3 antennas in the layout contexts), multiplier 3 and raw DMRS array for N <= 64; N = 1200 in one "
+                   "comb configuration; X on a subset of base lengths; R every root for base lengths <= 200 and every 16th "
+                   "root above; L small-entry pilots with <= 6 entries; histories up to 3 events")
     chk.sample({"part": "P", "size": 1013})
     chk.sample({"part": "Z", "size": 144, "root": 1})
     chk.sample({"part": "E", "N": 48, "kind": "srs_comb", "normalize": False, "shift": 3, "root": 7, "L": 6, "K": 5,
@@ -1804,6 +1813,7 @@ def main(chk: Check):
 
 def replay(case, chk: Check):
     part = case.get("part")
+    _watch_list()
     tools, cache = ZcTools(), SeqCache()
     if part == "P":
         c = {"part": "P", "size": case["size"]}
